@@ -1,0 +1,19 @@
+//go:build verif
+
+package ident
+
+// Contracts for the deductive verifier under /verif (comment-only; build tag verif).
+
+// asciiIdAt: byte k of id is allowed at position k of a C-style identifier.
+//@ pred asciiIdAt(id string, k int) = (id[k] >= 'a' && id[k] <= 'z') || (id[k] >= 'A' && id[k] <= 'Z') || id[k] == '_' || (k > 0 && id[k] >= '0' && id[k] <= '9')
+
+// IsValid on the ASCII part of its input is exactly the identifier rule [A-Za-z_][A-Za-z0-9_]*
+// (unicode.IsLetter / IsDigit are trusted to agree with the ASCII classes below 128; non-ASCII
+// letters are admitted by the function and not described here).
+//@ func IsValid
+//@   ensures result ==> len(id) > 0
+//@   ensures result ==> forall k in 0..len(id) :: id[k] < 128 ==> asciiIdAt(id, k)
+//@   ensures (len(id) > 0 && forall k in 0..len(id) :: id[k] < 128 && asciiIdAt(id, k)) ==> result
+//@   loop 1:
+//@     invariant 0 <= @i && @i <= len(id)
+//@     invariant forall k in 0..@i :: id[k] < 128 ==> asciiIdAt(id, k)
